@@ -394,65 +394,112 @@ class F:
         """dst is reached only on paths that took an edge of every group (conjunction of conditions)"""
         return all(bool(gr) and self.hit_before(dst, edges=gr) for gr in edge_groups)
 
-    def value_paths(self, limit: int = 256):
-        """All acyclic entry->return paths as (literals, returned expression (expanded at the return), node): literals
-        are (positive atom text (locals expanded), truth taken).  Conditional-expression returns are split into
-        their branches.  Raises ValueError on loops or too many paths."""
+    def value_paths(self, limit: int = 512, sink=None):
+        """All acyclic entry->return paths as (literals, returned expression, node).  Values are *path sensitive*: every
+        local is replaced by what was assigned to it on this very path (conditional expressions fork the path), so
+        `x = a if c else b; return f(x)` and `if c: x = a else: x = b; return f(x)` give the same two paths.
+        literals: (positive atom text, truth taken).  With `sink` (a predicate on CFG nodes) paths end at the first sink
+        node instead and the value is that node's statement.  Raises ValueError on loops or too many paths."""
         g = self.g
         if any(n.kind in ("for", "loop") for n in g.nodes):
             raise ValueError("function has loops")
+        self._rd()
+        keep = set(self._params) | set(self._mutated)
         out = []
 
-        def split(e, lits):
+        class Sub(ast.NodeTransformer):
+            def __init__(self, env):
+                self.env = env
+
+            def visit_Name(self, node):
+                if isinstance(node.ctx, ast.Load) and node.id in self.env:
+                    return copy.deepcopy(self.env[node.id])
+                return node
+
+            def visit_NamedExpr(self, node):
+                return self.visit(node.value)
+
+            def visit_Lambda(self, node):
+                return node
+
+        def subst(e, env):
+            return ast.fix_missing_locations(Sub(env).visit(copy.deepcopy(e))) if env else e
+
+        def add_lit(lits, key, truth):
+            if any(k == key and tv != truth for k, tv in lits):
+                return None
+            return lits if any(k == key for k, tv in lits) else lits + [(key, truth)]
+
+        def forks(e, lits):
+            """[(literals, expression)] with top-level conditional expressions resolved"""
             if isinstance(e, ast.IfExp):
                 a, neg = M.polarity(e.test)
-                t = norm(a)
-                return split(e.body, lits + [(t, not neg)]) + split(e.orelse, lits + [(t, neg)])
-            if isinstance(e, ast.BoolOp):
-                return [(lits, e)]
+                key = norm(a)
+                res = []
+                for branch, tv in ((e.body, not neg), (e.orelse, neg)):
+                    l2 = add_lit(lits, key, tv)
+                    if l2 is not None:
+                        res += forks(branch, l2)
+                return res
+            if isinstance(e, ast.Call) and norm(e.func) == "cast" and len(e.args) == 2 and isinstance(e.args[1], ast.IfExp):
+                return forks(e.args[1], lits)
             return [(lits, e)]
 
-        def dfs(n, lits, seen, env=None):
-            env = env or {}
+        def dfs(n, lits, seen, env):
             if len(out) > limit:
                 raise ValueError("too many paths")
             node = g.nodes[n]
             if n in seen:
                 raise ValueError("cycle")
-            if node.kind == "stmt" and isinstance(node.stmt, (ast.Assign, ast.AnnAssign)) and node.stmt.value is not None:
-                tg = node.stmt.targets if isinstance(node.stmt, ast.Assign) else [node.stmt.target]
-                if len(tg) == 1 and isinstance(tg[0], ast.Name):
-                    env = dict(env)
-                    env[tg[0].id] = self.xe_at(n, node.stmt.value)  # the value this name has on *this* path
+            if sink is not None and sink(node):
+                out.append((list(lits), subst(node.stmt, env) if node.stmt is not None else None, n))
+                return
             if node.kind == "stmt" and isinstance(node.stmt, ast.Return):
                 rv_ = node.stmt.value
-                if isinstance(rv_, ast.Name) and rv_.id in env:
-                    v = env[rv_.id]
-                else:
-                    v = self.xe_at(n, rv_) if rv_ is not None else ast.Constant(value=None)
-                for l2, e2 in split(v, list(lits)):
+                v = subst(rv_, env) if rv_ is not None else ast.Constant(value=None)
+                for l2, e2 in forks(v, list(lits)):
                     out.append((l2, e2, n))
                 return
-            if n in (g.exit,):
+            if n == g.exit:
                 out.append((list(lits), ast.Constant(value=None), n))
                 return
             if n == g.raise_exit:
                 return
-            for b, lab in g.succ[n]:
-                if lab in ("exc", "assert"):
-                    continue
-                l2 = lits
-                if node.kind == "test" and lab in ("T", "F"):
-                    key = self.x_at(n, node.exprs[0])
-                    a, neg = M.polarity(M.pat(key))
-                    key = norm(a)
-                    truth = (lab == "T") != neg
-                    if any(k == key and tv != truth for k, tv in lits):
-                        continue  # contradicts an earlier outcome of the same atom
-                    l2 = lits + [(key, truth)] if not any(k == key for k, tv in lits) else lits
-                dfs(b, l2, seen | {n}, env)
+            states = [(lits, env)]
+            if node.kind == "stmt" and isinstance(node.stmt, (ast.Assign, ast.AnnAssign)) and node.stmt.value is not None:
+                tg = node.stmt.targets if isinstance(node.stmt, ast.Assign) else [node.stmt.target]
+                if len(tg) == 1 and isinstance(tg[0], ast.Name) and tg[0].id not in keep and not M._is_fresh_container(node.stmt.value):
+                    val = subst(node.stmt.value, env)
+                    states = []
+                    for l2, e2 in forks(val, list(lits)):
+                        env2 = dict(env)
+                        env2[tg[0].id] = e2
+                        states.append((l2, env2))
+                elif len(tg) == 1 and isinstance(tg[0], ast.Tuple) and isinstance(node.stmt.value, ast.Tuple) and len(tg[0].elts) == len(node.stmt.value.elts):
+                    env2 = dict(env)
+                    for t_, v_ in zip(tg[0].elts, node.stmt.value.elts):
+                        if isinstance(t_, ast.Name) and t_.id not in keep:
+                            env2[t_.id] = subst(v_, env)
+                    states = [(lits, env2)]
+                elif len(tg) == 1 and isinstance(tg[0], ast.Name):
+                    env2 = dict(env)
+                    env2.pop(tg[0].id, None)
+                    states = [(lits, env2)]
+            for lits_, env_ in states:
+                for b, lab in g.succ[n]:
+                    if lab in ("exc", "assert"):
+                        continue
+                    l2 = lits_
+                    if node.kind == "test" and lab in ("T", "F"):
+                        a, neg = M.polarity(subst(node.exprs[0], env_))
+                        key = norm(a)
+                        truth = (lab == "T") != neg
+                        l2 = add_lit(lits_, key, truth)
+                        if l2 is None:
+                            continue  # contradicts an earlier outcome of the same atom
+                    dfs(b, l2, seen | {n}, env_)
 
-        dfs(g.entry, [], frozenset())
+        dfs(g.entry, [], frozenset(), {})
         return out
 
     def witness(self, dst: int, nodes: Iterable[int] = (), src: Optional[int] = None) -> List[str]:
